@@ -393,7 +393,9 @@ func c14World(t *testing.T, r *simcore.Run) any {
 		// NTS extension fields through the project's encoder and decoder
 		for k := 0; k < 8 && r.Violation() == nil; k++ {
 			ncook := 1 + tp.Intn(8, "ncook")
-			ck := make([]byte, []int{124, 100, 104, 64}[tp.Intn(4, "nck")])
+			// (cookies of foreign servers need not be a multiple of four bytes long: the encoder pads)
+			ck := make([]byte, []int{124, 100, 104, 64, 101, 102, 103, 61, 17}[tp.Intn(9, "nck")])
+			padded := (len(ck) + 3) &^ 3
 			var cookies [][]byte
 			for i := 0; i < ncook; i++ {
 				c := append([]byte(nil), ck...)
@@ -414,15 +416,43 @@ func c14World(t *testing.T, r *simcore.Run) any {
 				fail("nts/decode-own-request", "%v", err)
 				return
 			}
-			if !bytes.Equal(dec.UniqueID.ID, uid) || len(dec.Cookies) != 1 || !bytes.Equal(dec.Cookies[0].Cookie, cookies[0]) || len(dec.CookiePlaceholders) != 8-ncook {
-				fail("nts/kinds", "request with %d pooled cookies decodes to %d cookies / %d placeholders", ncook, len(dec.Cookies), len(dec.CookiePlaceholders))
+			if !bytes.Equal(dec.UniqueID.ID, uid) || len(dec.Cookies) != 1 || len(dec.Cookies[0].Cookie) != padded || !bytes.Equal(dec.Cookies[0].Cookie[:len(ck)], cookies[0]) || len(dec.CookiePlaceholders) != 8-ncook {
+				fail("nts/kinds", "request with %d pooled cookies of %d bytes decodes to %d cookies / %d placeholders", ncook, len(ck), len(dec.Cookies), len(dec.CookiePlaceholders))
 				return
+			}
+			// the wire, walked independently: identifier, cookie, placeholders, authenticator, all aligned
+			{
+				var kinds []uint16
+				for _, f := range ntsWalk(buf) {
+					if f.off%4 != 0 || len(f.body)%4 != 0 {
+						fail("nts/alignment", "request with a %d-byte cookie: field %#04x at offset %d with a %d-byte body is not 4-byte aligned", len(ck), f.typ, f.off, len(f.body))
+						return
+					}
+					kinds = append(kinds, f.typ)
+				}
+				want := []uint16{0x0104, 0x0204}
+				for i := 0; i < 8-ncook; i++ {
+					want = append(want, 0x0304)
+				}
+				want = append(want, 0x0404)
+				if fmt.Sprint(kinds) != fmt.Sprint(want) {
+					fail("nts/kinds-on-wire", "request with %d pooled cookies of %d bytes carries fields %x, want %x", ncook, len(ck), kinds, want)
+					return
+				}
+				if len(ck)%4 != 0 {
+					r.Probe("unaligned-cookie-request")
+				}
 			}
 			if err := nts.ProcessRequest(buf, key, &dec); err != nil {
 				fail("nts/authenticate-own-request", "%v", err)
 				return
 			}
 			nresp := 1 + tp.Intn(7, "nresp")
+			if len(ck)%4 != 0 {
+				// responses are only ever built by this project's server from its own cookies, whose
+				// length is a multiple of four (NewResponsePacket sizes its buffer without padding)
+				continue
+			}
 			resp := nts.NewResponsePacket(cookies[:min(nresp, len(cookies))], key, uid)
 			rb := make([]byte, 48)
 			nts.EncodePacket(&rb, &resp)
@@ -442,7 +472,7 @@ func c14World(t *testing.T, r *simcore.Run) any {
 				return
 			}
 			for i := range got {
-				if !bytes.Equal(got[i], cookies[i]) {
+				if len(got[i]) != padded || !bytes.Equal(got[i][:len(ck)], cookies[i]) {
 					fail("nts/response-cookies", "cookie %d differs after the round trip", i)
 					return
 				}
